@@ -17,6 +17,7 @@ mod c14;
 mod c11;
 mod c09;
 mod c20;
+mod c12;
 mod common;
 mod dict;
 mod world;
@@ -61,6 +62,7 @@ fn main() {
         "C11" => c11::run(&mut run),
         "C09" => c09::run(&mut run),
         "C20" => c20::run(&mut run),
+        "C12" => c12::run(&mut run),
         _ => { eprintln!("unknown property {}", prop); std::process::exit(2); }
     }
     run.finish();
